@@ -1,6 +1,7 @@
 package main
 
 import (
+	"go/constant"
 	"fmt"
 	"go/token"
 	"strings"
@@ -60,7 +61,7 @@ func (e *Engine) condMentions(g Guard, names ...string) bool {
 }
 
 func runC13(e *Engine, r *Report, tier string) {
-	r.Explanation = "C13, structural clauses. Decided: R1 the oracle record (0x12) and its two reverse indexes (0x13 external, 0x14 bridger) are created together under absence tests on all three keys, the bridger edit deletes the stored record's old index key and sets the new one under an absence test, unbond deletes all three on its success path, and nothing else writes 0x13/0x14; R2 bonding and add-delegate are dominated by membership in the governance list (0x38), the denom test and both stake bounds; R3 the recorded stake, the coins sent to the delegate account and the delegated amount are the same value, and the delegate account is GetDelegateAddress of the same oracle; R4 the penalty is clamped to [0, stake], add-delegate clears the slash counter, unbond requires `not in governance list` and `offline`; R5 the slash primitive is called only from the end-block slashing loops, each call guarded by `joined before the object` and `no confirmation by this oracle`, with the oracle's own address; R6 unbond pays out and deletes only on the branch where no unbonding delegation exists for the delegate account; R7 a governance oracle-list update hands every removed oracle to the unbonding routine regardless of the oracle's own state. Not decided: staking-module accounting, unbonding maturity, amounts."
+	r.Explanation = "C13, structural clauses. Decided: R1 the oracle record (0x12) and its two reverse indexes (0x13 external, 0x14 bridger) are created together under absence tests on all three keys, the bridger edit deletes the stored record's old index key and sets the new one under an absence test, unbond deletes all three on its success path, and nothing else writes 0x13/0x14; R2 bonding and add-delegate are dominated by membership in the governance list (0x38), the denom test and both stake bounds; R3 the recorded stake, the coins sent to the delegate account and the delegated amount are the same value, and the delegate account is GetDelegateAddress of the same oracle; R4 the penalty is clamped to [0, stake], add-delegate clears the slash counter, unbond requires `not in governance list` and `offline`; R5 the slash primitive is called only from the end-block slashing loops, each call guarded by `joined before the object` and `no confirmation by this oracle`, with the oracle's own address; R6 unbond pays out and deletes only on the branch where no unbonding delegation exists for the delegate account; R7 a governance oracle-list update hands every removed oracle to the unbonding routine regardless of the oracle's own state. R8 every store of Online = true into an oracle record is accompanied, on every path, by StartHeight := ctx.BlockHeight() for the same record, so that `created after it joined` (the start-height test of R5) refers to the latest join. Not decided: staking-module accounting, unbonding maturity, amounts."
 	r.Rule("R1", "registry co-write: create all three under absence tests; edit re-keys; unbond deletes all; no other writer", 8, "writers of crosschain:12/13/14")
 	r.Rule("R2", "bonding guarded by governance membership, denom and stake bounds", 6, "functions delegating for an oracle")
 	r.Rule("R3", "recorded stake = transferred = delegated; delegate account of the same oracle", 2, "")
@@ -68,6 +69,7 @@ func runC13(e *Engine, r *Report, tier string) {
 	r.Rule("R5", "slash primitive only from the slashing loops, guarded by start height and missing confirmation", 7, "callers of the slash primitive")
 	r.Rule("R6", "unbond proceeds only when no unbonding delegation exists", 1, "")
 	r.Rule("R7", "governance removal unbonds every removed oracle", 1, "")
+	r.Rule("R8", "every transition to Online = true sets StartHeight to the current block height on every path", 2, "stores of Oracle.Online = true")
 
 	// classify msg handlers by their direct calls
 	type hinfo struct {
@@ -589,6 +591,73 @@ func runC13(e *Engine, r *Report, tier string) {
 	}
 	if nrem == 0 {
 		r.Fail("R7", "governance removal", "", "UNRESOLVED-ANCHOR: the function updating the governance oracle list does not unbond removed oracles")
+	}
+
+	// ---------- R8: whoever puts an oracle online resets the height it answers from ----------
+	// The slashing loops skip objects created before oracle.StartHeight (R5). That is only "created after it joined" if every
+	// transition to Online = true also sets StartHeight to the current block height, on every path — an oracle taken offline by
+	// governance (not slashed) and put back online must not keep the start height of its first bond.
+	non := 0
+	for _, fn := range e.Funcs {
+		if isAuxPkg(fnPkgPath(fn)) || isGenesisOrUpgrade(fn) || !strings.Contains(fnPkgPath(fn), "x/crosschain/keeper") {
+			continue
+		}
+		allInstrs(fn, func(i ssa.Instruction) {
+			st, ok := i.(*ssa.Store)
+			if !ok {
+				return
+			}
+			fa, ok := st.Addr.(*ssa.FieldAddr)
+			if !ok {
+				return
+			}
+			n, t, ok := fieldName(fa)
+			if !ok || n != "Online" || !strings.HasSuffix(t.String(), "types.Oracle") {
+				return
+			}
+			c, isC := st.Val.(*ssa.Const)
+			if !isC || c.Value == nil || c.Value.Kind() != constant.Bool || !constant.BoolVal(c.Value) {
+				return
+			}
+			non++
+			ck := e.CanonFnKey(fn) + " online"
+			var sh *ssa.Store
+			allInstrs(fn, func(j ssa.Instruction) {
+				s2, ok := j.(*ssa.Store)
+				if !ok {
+					return
+				}
+				f2, ok := s2.Addr.(*ssa.FieldAddr)
+				if !ok || f2.X != fa.X {
+					return
+				}
+				if n2, _, ok := fieldName(f2); !ok || n2 != "StartHeight" {
+					return
+				}
+				isNow := false
+				e.Slice(s2.Val, SliceOpts{MaxDepth: 4}, func(x ssa.Value) Verdict {
+					if cc0, ok := x.(*ssa.Call); ok && callName(cc0) == "BlockHeight" {
+						isNow = true
+						return Accept
+					}
+					return Continue
+				})
+				if !isNow {
+					return
+				}
+				if s2.Block() == st.Block() || Dominates(s2, st) || MustPassThrough(fn, st, func(x ssa.Instruction) bool { return x == ssa.Instruction(s2) }) == nil {
+					sh = s2
+				}
+			})
+			if sh != nil {
+				r.Ok("R8", ck, e.InstrPos(st), "StartHeight := current block height on every path that puts the oracle online")
+			} else {
+				r.Fail("R8", ck, e.InstrPos(st), "the oracle is put online without its StartHeight being set to the current block height on every path: it keeps an earlier start height and is penalised for oracle sets, batches and bridge calls created while it was not a member")
+			}
+		})
+	}
+	if non == 0 {
+		r.Fail("R8", "online transitions", "", "UNRESOLVED-ANCHOR: no store of Online = true found")
 	}
 }
 
